@@ -273,7 +273,7 @@ func (s *Space) Dump(suffix string) [][2][]byte {
 			return out
 		}
 	}
-	return nil
+	panic("vkv: no store with suffix " + suffix)
 }
 
 func (s *Space) hook(store, kind string) {
